@@ -1,5 +1,478 @@
-import StraxModel.Model.Basic
+import StraxModel.Lemmas.Copy
+/-
+  Property C16 — copying, rechunking, recompressing and per-chunk merging preserve the data.
+
+  Model: `Model/Copy.lean` (`copyData` = `Context.copy_to_frontend`; `rechunkPlan` / `runOps` /
+  `standaloneRechunk` = `strax.rechunker` as a sequence of directory-level operations on a store
+  {source, dest_temp, dest}; `rechunkOnLoad` = the loader with `rechunk=True`; `perChunkJob` /
+  `perChunkMerge` / `perChunkPipeline` = `make(chunk_number=…)` + `merge_per_chunk_storage`;
+  `tagLineage` / `keyFor` = `chunk_number` in the lineage), on top of the saver / loader of C03
+  (`Model/Storage.lean`) and the chunk algebra / rechunker of C07.
+
+  Every preservation theorem is a composition of `Strax.C03.loaded_is_rechunker_output` /
+  `Strax.C03.roundtrip_plain_storable` / `Strax.C03.meta_consistent` with
+  `Strax.C07.rechunk_stream` (through `Strax.Copy.roundtrip_strong`, Lemmas/Copy.lean), for ALL
+  stored layouts: the hypothesis on the stored data is only that it LOADS (`loadDir src = .ok s`)
+  to a C07-law-abiding stream (`Strax.LawAbiding s`: every chunk well-formed and un-annotated,
+  adjacent ranges, one data type and run) of a plain run.  `rows s` is the concatenation of the row
+  lists; rows carry opaque identities, so `rows a = rows b` is "bit-identical rows in the same order".
+
+  Compressors are the identity on rows in the model (validated by the byte-level oracle of the
+  check); the compressor / target-size fields of the metadata are checked by the oracle.
+-/
 namespace Strax.C16
-open Strax
+open Strax Strax.Storage Strax.Copy
+
+/-! ## 1. `copy_to_frontend` -/
+
+/-- Copying stored data to another frontend — with or without rechunking (then to any target of
+at least one row) — succeeds; what the destination loads to has exactly the rows of the source in
+the same order, the same overall range and run, obeys the laws of chunking (both readings), every
+chunk carries the target size and data type of the destination metadata, every boundary is a
+boundary of the source or lies strictly inside a row-free gap; without rechunking the copy is
+chunk for chunk; and the destination metadata agrees with the destination files
+(`MetaConsistent`, the statement of `Strax.C03.meta_consistent`). -/
+theorem copy_preserves (src : Dir) (s : List Chunk) (rid : String) (rechunk : Bool) (rechunkTo : Nat)
+    (hload : loadDir src = .ok s) (hl : Strax.LawAbiding s = true)
+    (hrid : s.head?.bind (·.runId) = some rid) (hplain : rid.startsWith "_" = false)
+    (hmd : src.1.hdr.runId.startsWith "_" = false) (ht : rechunk = true → 1 ≤ rechunkTo) :
+    ∃ dst loaded out, copyData Generated.getSplitsArgmin0 src rechunk rechunkTo = .ok dst ∧
+      loadDir dst = .ok loaded ∧
+      rows loaded = rows s ∧
+      loaded.head?.map (·.start) = s.head?.map (·.start) ∧
+      loaded.getLast?.map (·.stop) = s.getLast?.map (·.stop) ∧
+      Strax.LawAbiding loaded = true ∧ lawAbidingB loaded = true ∧
+      (∀ c ∈ loaded, c.runId = some rid ∧ c.target = (copyHeader src.1.hdr rechunk rechunkTo).target ∧
+        c.dataType = src.1.hdr.dataType) ∧
+      boundaryRuleB s loaded = true ∧
+      (rechunk = false → loaded.map (fun c => (c.start, c.stop, c.rows)) = s.map (fun c => (c.start, c.stop, c.rows))) ∧
+      MetaConsistent (copyHeader src.1.hdr rechunk rechunkTo) dst.1 dst.2 out ∧ rows out = rows s := by
+  obtain ⟨dst, loaded, h1, h2, hp⟩ := copy_core src s rid rechunk rechunkTo hload hl hrid hplain hmd ht
+  have hsave : saveAll Generated.getSplitsArgmin0 rechunk (copyHeader src.1.hdr rechunk rechunkTo)
+      (s.map (setTarget (copyHeader src.1.hdr rechunk rechunkTo).target)) = .ok (dst.1, dst.2) := by
+    have := h1
+    unfold copyData at this
+    simpa [hload, bind, Except.bind] using this
+  obtain ⟨out, hre, _, hmc⟩ := metaConsistent_of_save _ _ _ _ _ _ hsave
+  have hrows_out : rows out = rows s := by
+    -- what is loaded is what was written
+    have hl2 : loadAll dst.1 dst.2 = .ok loaded := h2
+    rw [saveAll_eq, hre] at hsave
+    simp only [Except.map, Except.ok.injEq, Prod.mk.injEq] at hsave
+    have hr := hp.rows_eq
+    rw [rows_map_setTarget] at hr
+    -- loaded = out.map restore whenever the load succeeds on the closed form: use the rows of the files
+    have hst : ∀ c ∈ out, True := fun _ _ => trivial
+    clear hst
+    -- via C03: rows of loaded equal rows of out
+    cases rechunk with
+    | false =>
+      have := rechunkAll_off Generated.getSplitsArgmin0 ((copyHeader src.1.hdr false rechunkTo).runId.startsWith "_")
+        (s.map (setTarget (copyHeader src.1.hdr false rechunkTo).target))
+      rw [this] at hre
+      cases hre
+      exact rows_map_setTarget _ s
+    | true =>
+      have hmd' : (copyHeader src.1.hdr true rechunkTo).runId.startsWith "_" = false := by simpa using hmd
+      rw [hmd'] at hre
+      obtain ⟨out', hre', hrows', _⟩ := Strax.C07.rechunk_stream
+        (s.map (setTarget (copyHeader src.1.hdr true rechunkTo).target)) (lawAbiding_map_setTarget _ s hl)
+        (by
+          intro c hc
+          simp only [List.mem_map] at hc
+          obtain ⟨c0, _, rfl⟩ := hc
+          simpa [setTarget, copyHeader] using ht rfl)
+      rw [hre'] at hre
+      cases hre
+      exact hrows'.trans (rows_map_setTarget _ s)
+  refine ⟨dst, loaded, out, h1, h2, ?_, ?_, ?_, hp.law, hp.lawB, ?_, ?_, ?_, hmc, hrows_out⟩
+  · rw [hp.rows_eq, rows_map_setTarget]
+  · rw [hp.start_eq, head_map_start (setTarget _) (fun _ => rfl)]
+  · rw [hp.stop_eq, last_map_stop (setTarget _) (fun _ => rfl)]
+  · intro c hc
+    have := hp.hdr_fields c hc
+    refine ⟨hp.runs c hc, this.1, ?_⟩
+    rw [this.2.1]
+    unfold copyHeader; split <;> rfl
+  · rw [← boundaryRuleB_congr (boundaries_map (setTarget _) (fun _ => rfl) (fun _ => rfl) s) (rows_map_setTarget _ s)]
+    exact hp.boundary
+  · intro hre
+    rw [hp.plain hre]
+    simp [List.map_map, Function.comp_def, restore, setTarget]
+
+/-! ## 2. the stand-alone rechunker -/
+
+/-- Rewriting stored data with the stand-alone rechunker — any target size of at least one row
+(or the stored one), rechunking on or off, to a new location or in place (`replace`) — returns
+normally; the rewritten data sits where it belongs (the destination without `replace`, the source
+path with it, the destination then being gone; never a temp directory left), loads to exactly the
+rows of the source in the same order, with the same range, run and laws of chunking, every new
+boundary an old one or strictly inside a row-free gap; its metadata agrees with its files; and
+without `replace` the source directory is what it was. -/
+theorem standalone_rechunk_preserves (st : Store) (src : Dir) (s : List Chunk) (rid : String)
+    (replace rechunk : Bool) (target : Option Nat)
+    (hsrc : st.src = some src) (hal : st.aliased = false)
+    (hload : loadDir src = .ok s) (hl : Strax.LawAbiding s = true)
+    (hrid : s.head?.bind (·.runId) = some rid) (hplain : rid.startsWith "_" = false)
+    (hmd : src.1.hdr.runId.startsWith "_" = false)
+    (ht : rechunk = true → ∀ c ∈ s, 1 ≤ (stamp target c).target) :
+    ∃ st' new loaded out, standaloneRechunk Generated.getSplitsArgmin0 destGuard st replace rechunk target = (st', none) ∧
+      (if replace then st'.src = some new ∧ st'.dst = none else st'.dst = some new ∧ st'.src = some src) ∧
+      st'.tmp = none ∧
+      loadDir new = .ok loaded ∧
+      rows loaded = rows s ∧
+      loaded.head?.map (·.start) = s.head?.map (·.start) ∧
+      loaded.getLast?.map (·.stop) = s.getLast?.map (·.stop) ∧
+      Strax.LawAbiding loaded = true ∧ lawAbidingB loaded = true ∧
+      (∀ c ∈ loaded, c.runId = some rid ∧ c.target = (rechunkHeader src.1.hdr target).target) ∧
+      boundaryRuleB s loaded = true ∧
+      (rechunk = false → loaded.map (fun c => (c.start, c.stop, c.rows)) = s.map (fun c => (c.start, c.stop, c.rows))) ∧
+      MetaConsistent (rechunkHeader src.1.hdr target) new.1 new.2 out := by
+  obtain ⟨md, out0, loaded, hplan, hsave, hld, hp⟩ :=
+    plan_ok destGuard st src s rid replace rechunk target hsrc hal hload hl hrid hplain hmd ht
+  obtain ⟨out, _, _, hmc⟩ := metaConsistent_of_save _ _ _ _ _ _ hsave
+  have hrun := runOps_writePlan st hal (rechunkHeader src.1.hdr target) md out0
+  have hstamp_st : ∀ c, (stamp target c).start = c.start := fun c => by cases target <;> rfl
+  have hstamp_sp : ∀ c, (stamp target c).stop = c.stop := fun c => by cases target <;> rfl
+  refine ⟨runOps st (writePlan (rechunkHeader src.1.hdr target) md (filesFrom (rechunkHeader src.1.hdr target).pfx 0 out0) ++
+      (if replace then [.rmSrc, .moveDst] else [])),
+    (md, filesFrom (rechunkHeader src.1.hdr target).pfx 0 out0), loaded, out, ?_, ?_, ?_, hld, ?_, ?_, ?_,
+    hp.law, hp.lawB, ?_, ?_, ?_, hmc⟩
+  · unfold standaloneRechunk
+    rw [hplan]
+  · rw [runOps_append, hrun]
+    cases replace with
+    | false => simp [runOps, hsrc]
+    | true => simp [runOps, applyOp, Store.getDst, Store.setDst, hal]
+  · rw [runOps_append, hrun]
+    cases replace with
+    | false => simp [runOps]
+    | true => simp [runOps, applyOp, Store.getDst, Store.setDst, hal]
+  · rw [hp.rows_eq, rows_map_stamp]
+  · rw [hp.start_eq, head_map_start (stamp target) hstamp_st]
+  · rw [hp.stop_eq, last_map_stop (stamp target) hstamp_sp]
+  · intro c hc
+    exact ⟨hp.runs c hc, (hp.hdr_fields c hc).1⟩
+  · rw [← boundaryRuleB_congr (boundaries_map (stamp target) hstamp_st hstamp_sp s) (rows_map_stamp target s)]
+    exact hp.boundary
+  · intro hre
+    rw [hp.plain hre]
+    cases target <;> simp [List.map_map, Function.comp_def, restore, stamp, setTarget]
+
+/-! ## 3. the source is left intact unless replacement is requested -/
+
+/-- For EVERY prefix of the sequence of directory-level operations the rechunker issues on loadable
+data: the source directory is exactly what it was — or, only when `replace` was requested and only
+after every write and the closing rename of the destination happened, it has been removed while
+the complete new data `new` sits in the destination, or it already is `new`.  `new` loads to the
+rows of the source (`standalone_rechunk_preserves`).  Without `replace` the source is untouched
+at every prefix. -/
+theorem source_intact_unless_replace (st : Store) (src : Dir) (s : List Chunk) (rid : String)
+    (replace rechunk : Bool) (target : Option Nat)
+    (hsrc : st.src = some src) (hal : st.aliased = false)
+    (hload : loadDir src = .ok s) (hl : Strax.LawAbiding s = true)
+    (hrid : s.head?.bind (·.runId) = some rid) (hplain : rid.startsWith "_" = false)
+    (hmd : src.1.hdr.runId.startsWith "_" = false)
+    (ht : rechunk = true → ∀ c ∈ s, 1 ≤ (stamp target c).target) :
+    ∃ ops new loaded nWrites, rechunkPlan Generated.getSplitsArgmin0 destGuard st replace rechunk target = (ops, none) ∧
+      loadDir new = .ok loaded ∧ rows loaded = rows s ∧ new.1.writingEnded = true ∧ new.1.exception = false ∧
+      ∀ k, (runOps st (ops.take k)).src = some src ∨
+        (replace = true ∧ nWrites + 2 < k ∧
+          (((runOps st (ops.take k)).src = none ∧ (runOps st (ops.take k)).dst = some new) ∨
+           ((runOps st (ops.take k)).src = some new ∧ (runOps st (ops.take k)).dst = none))) := by
+  obtain ⟨md, out0, loaded, hplan, hsave, hld, hp⟩ :=
+    plan_ok destGuard st src s rid replace rechunk target hsrc hal hload hl hrid hplain hmd ht
+  obtain ⟨out, _, _, hmc⟩ := metaConsistent_of_save _ _ _ _ _ _ hsave
+  refine ⟨_, (md, filesFrom (rechunkHeader src.1.hdr target).pfx 0 out0), loaded,
+    (filesFrom (rechunkHeader src.1.hdr target).pfx 0 out0).length, hplan, hld, ?_, hmc.2.2.2.2.2.1, hmc.2.2.2.2.2.2.1, ?_⟩
+  · rw [hp.rows_eq, rows_map_stamp]
+  · intro k
+    have := plan_prefix st src (md, filesFrom (rechunkHeader src.1.hdr target).pfx 0 out0)
+      (writePlan (rechunkHeader src.1.hdr target) md (filesFrom (rechunkHeader src.1.hdr target).pfx 0 out0)) replace
+      hsrc hal (writePlan_safe _ _ _)
+      (by rw [runOps_writePlan st hal]) k
+    rcases this with h | ⟨h1, h2, h3⟩
+    · exact Or.inl h
+    · refine Or.inr ⟨h1, ?_, h3⟩
+      simp only [writePlan, List.cons_append, List.length_cons, List.length_append, List.length_map,
+        List.length_nil] at h2
+      omega
+
+/-- the operations that precede the removal of the source are: create the temp directory, write
+every chunk file, close (metadata flush + rename) — the destination is complete before `rm` -/
+theorem replace_removes_last (st : Store) (src : Dir) (s : List Chunk) (rid : String) (rechunk : Bool)
+    (target : Option Nat) (hsrc : st.src = some src) (hal : st.aliased = false)
+    (hload : loadDir src = .ok s) (hl : Strax.LawAbiding s = true)
+    (hrid : s.head?.bind (·.runId) = some rid) (hplain : rid.startsWith "_" = false)
+    (hmd : src.1.hdr.runId.startsWith "_" = false)
+    (ht : rechunk = true → ∀ c ∈ s, 1 ≤ (stamp target c).target) :
+    ∃ safe, (rechunkPlan Generated.getSplitsArgmin0 destGuard st true rechunk target).1 = safe ++ [.rmSrc, .moveDst] ∧
+      (∀ o ∈ safe, safeOp o = true) ∧ (safe.getLast?.map FsOp.kind = some "close") := by
+  obtain ⟨md, out0, loaded, hplan, _⟩ :=
+    plan_ok destGuard st src s rid true rechunk target hsrc hal hload hl hrid hplain hmd ht
+  refine ⟨writePlan (rechunkHeader src.1.hdr target) md (filesFrom (rechunkHeader src.1.hdr target).pfx 0 out0), ?_,
+    writePlan_safe _ _ _, ?_⟩
+  · rw [hplan]; simp
+  · unfold writePlan
+    rw [List.getLast?_append]
+    simp [FsOp.kind]
+
+/-- since fix D24: a destination that resolves to the source directory is refused before anything
+is touched -/
+theorem dest_is_source_refused (a0 : Int) (st : Store) (src : Dir) (replace rechunk : Bool) (target : Option Nat)
+    (hsrc : st.src = some src) (hal : st.aliased = true) :
+    standaloneRechunk a0 destGuard st replace rechunk target = (st, some Err.valueError) := by
+  simp [standaloneRechunk, rechunkPlan, hsrc, hal, destGuard, runOps]
+
+/-- a tiny stored data type: two chunks, rows 0 and 1 separated by more than 1000 ns -/
+def exDir : Dir :=
+  ({ hdr := { runId := "r", dataType := "src", kind := "things", target := 1, pfx := "src-h" },
+     chunks := [⟨0, 1, 0, 10, some "r", none, some 1, some 4, some 1, some 4, some "src-h-000000"⟩,
+                ⟨1, 1, 10, 5000, some "r", none, some 4000, some 4001, some 4000, some 4001, some "src-h-000001"⟩],
+     start := some 0, stop := some 5000, writingEnded := true, exception := false },
+   [("src-h-000000", [⟨1, 4, 0⟩]), ("src-h-000001", [⟨4000, 4001, 1⟩])])
+
+def exStream : List Chunk :=
+  [ { dataType := "src", kind := "things", runId := some "r", start := 0, stop := 10, rows := [⟨1, 4, 0⟩],
+      subruns := none, superrun := [⟨"r", 0, 10⟩], target := 1 },
+    { dataType := "src", kind := "things", runId := some "r", start := 10, stop := 5000, rows := [⟨4000, 4001, 1⟩],
+      subruns := none, superrun := [⟨"r", 10, 5000⟩], target := 1 } ]
+
+/-- the hypotheses of the theorems above on a concrete directory -/
+example : loadDir exDir = .ok exStream ∧ Strax.LawAbiding exStream = true ∧
+    exStream.head?.bind (·.runId) = some "r" ∧ ("r" : String).startsWith "_" = false ∧
+    exDir.1.hdr.runId.startsWith "_" = false ∧ (∀ c ∈ exStream, 1 ≤ (stamp (some 2) c).target) :=
+  ⟨ok_of_toOption (by decide +kernel), by decide +kernel, by decide +kernel, by decide +kernel, by decide +kernel,
+   by decide +kernel⟩
+
+/-- **the old behaviour (before fix D24)**: with the destination resolving to the source directory
+and NO replacement requested, the rechunker destroyed the source — the caller got ValueError, the
+source path held a directory without any chunk file whose metadata records an exception, and
+nothing could be loaded from it any more. -/
+theorem source_destroyed_old_counterexample :
+    let st : Store := { src := some exDir, tmp := none, dst := none, aliased := true }
+    let r := standaloneRechunk (-1) false st false true (some 2)
+    r.2 = some Err.valueError ∧ r.1.src ≠ some exDir ∧
+    (r.1.src.map fun d => (d.2, d.1.chunks, d.1.exception)) = some ([], [], true) ∧
+    (r.1.src.map fun d => (loadDir d).toOption) = some none := by
+  decide +kernel
+
+/-! ## 4. rechunk on load -/
+
+/-- Loading stored data with `rechunk_on_load` (any source size of at least one row) succeeds and
+yields a law-abiding stream with exactly the stored rows in order, the same overall range, data
+type and run; chunks are only ever split: every stored chunk start is still a chunk start. -/
+theorem rechunk_on_load_preserves (d : Dir) (s : List Chunk) (sourceSize : Nat) (hs : 1 ≤ sourceSize)
+    (hload : loadDir d = .ok s) (hl : Strax.LawAbiding s = true) :
+    ∃ out, rechunkOnLoad Generated.getSplitsArgmin0 sourceSize d = .ok out ∧
+      rows out = rows s ∧ Strax.LawAbiding out = true ∧
+      out.head?.map (fun c => (c.start, c.dataType, c.runId)) = s.head?.map (fun c => (c.start, c.dataType, c.runId)) ∧
+      out.getLast?.map (·.stop) = s.getLast?.map (·.stop) ∧
+      (∀ t ∈ s.map (·.start), t ∈ out.map (·.start)) := by
+  obtain ⟨out, h1, h2, h3, h4, h5, h6⟩ := rechunkStream_good sourceSize hs s hl
+  refine ⟨out, ?_, h3, h2, h4, h5, h6⟩
+  simp only [rechunkOnLoad, hload, bind, Except.bind]
+  exact h1
+
+/-- every piece of a chunk split on load starts strictly inside the chunk at a time no row of the
+chunk touches, and the pieces keep the chunk's data type, run and target size -/
+theorem rechunk_on_load_cuts_in_gaps (sourceSize : Nat) (hs : 1 ≤ sourceSize) (c : Chunk) (hg : c.good = true) :
+    ∃ ps, splitLoaded Generated.getSplitsArgmin0 sourceSize c = .ok ps ∧ rows ps = c.rows ∧
+      (∀ x ∈ ps, x.dataType = c.dataType ∧ x.runId = c.runId ∧ x.target = c.target) ∧
+      ∀ t ∈ (ps.map (·.start)).tail, c.start < t ∧ t < c.stop ∧ ∀ r ∈ c.rows, ¬ (r.time ≤ t ∧ t ≤ r.endt) := by
+  obtain ⟨ps, h1, _, h3, _, _, h6, h7⟩ := splitLoaded_good sourceSize hs c hg
+  exact ⟨ps, h1, h3, h6, h7⟩
+
+/-- since fix D25 the loader behaves the same whether or not it is handed an executor -/
+theorem rechunk_on_load_executor (executor : Bool) (a0 : Int) (sourceSize : Nat) (d : Dir) :
+    rechunkOnLoadExec true executor a0 sourceSize d = rechunkOnLoad a0 sourceSize d := by
+  cases executor <;> simp [rechunkOnLoadExec]
+
+/-- **the old behaviour (before fix D25)**: a loader that was handed an executor (threaded
+processor, `max_workers ≥ 2`) failed on loadable data as soon as `rechunk_on_load` was set -/
+theorem rechunk_on_load_old_counterexample :
+    rechunkOnLoadExec false true (-1) 1 exDir = .error Err.other ∧
+    (rechunkOnLoadExec true true (-1) 1 exDir).toOption.map (fun out => out.map fun c => (c.start, c.stop, ids c.rows))
+      = some [(0, 10, [0]), (10, 5000, [1])] := by
+  decide +kernel
+
+example : (rechunkOnLoad (-1) 1 ({ exDir.1 with chunks := [⟨0, 2, 0, 5000, some "r", none, some 1, some 4, some 4000, some 4001,
+      some "src-h-000000"⟩] }, [("src-h-000000", [⟨1, 4, 0⟩, ⟨4000, 4001, 1⟩])])).toOption.map
+      (fun out => out.map fun c => (c.start, c.stop, ids c.rows)) = some [(0, 3500, [0]), (3500, 5000, [1])] := by
+  decide +kernel
+
+/-! ## 5. per-chunk processing followed by merging -/
+
+/-- For a chunk-wise computation `f` (`ChunkWise`: every good input chunk is answered with a good
+chunk over the same range, of the plugin's data type and target size; no state between chunks) that
+is a chunk homomorphism (`ChunkHomRows f whole`: applied to ANY law-abiding chunking it yields the
+rows `whole (all rows)`), and for EVERY grouping `groups` of the dependency's chunks into
+non-empty consecutive jobs: running the jobs (each saved under its own header, with or without
+rechunk-on-save), then merging the stored results (with or without rechunking, to any target of at
+least one row) succeeds, and the merged data loads to exactly `whole (rows dependency)` — the rows
+of computing on all chunks at once (`direct`) — over the range of the dependency, law-abiding, with
+metadata that agrees with the files. -/
+theorem per_chunk_merge {f : Chunk → Except Err Chunk} {dt : String} {tt : Nat} {whole : List Row → List Row}
+    (hf : ChunkWise f dt tt) (hhom : ChunkHomRows f whole)
+    (groups : List (List Chunk)) (jobHdrs : List Header) (hdr : Header) (rid : String)
+    (rechunkOnSave rechunk : Bool) (rechunkTo : Nat)
+    (hlen : jobHdrs.length = groups.length) (hgne : groups ≠ []) (hne : ∀ g ∈ groups, g ≠ [])
+    (hl : Strax.LawAbiding groups.flatten = true) (hrun : ∀ c ∈ groups.flatten, c.runId = some rid)
+    (hplain : rid.startsWith "_" = false)
+    (hjh : ∀ h ∈ jobHdrs, h.runId.startsWith "_" = false ∧ h.dataType = dt)
+    (hmd : hdr.runId.startsWith "_" = false)
+    (htt : rechunkOnSave = true → 1 ≤ tt) (hrt : rechunk = true → 1 ≤ rechunkTo) :
+    ∃ dst loaded direct out,
+      perChunkPipeline Generated.getSplitsArgmin0 f jobHdrs rechunkOnSave groups rechunk rechunkTo hdr = .ok dst ∧
+      loadDir dst = .ok loaded ∧
+      mapChunks f groups.flatten = .ok direct ∧
+      rows loaded = rows direct ∧ rows loaded = whole (rows groups.flatten) ∧
+      loaded.head?.map (·.start) = groups.flatten.head?.map (·.start) ∧
+      loaded.getLast?.map (·.stop) = groups.flatten.getLast?.map (·.stop) ∧
+      Strax.LawAbiding loaded = true ∧ (∀ c ∈ loaded, c.runId = some rid) ∧
+      MetaConsistent hdr dst.1 dst.2 out := by
+  obtain ⟨ds, L, direct, hjobs, hloads, hdirect, hLlaw, hLrows, hLhead, hLlast, hLall, hLne⟩ :=
+    jobs_core hf rechunkOnSave rechunk rechunkTo rid hplain htt groups jobHdrs hlen hne hl hrun hjh
+  have hL := hLne hgne
+  have hLrid : L.head?.bind (·.runId) = some rid := by
+    cases L with
+    | nil => exact absurd rfl hL
+    | cons a l => simpa using (hLall a (by simp)).1
+  obtain ⟨md, files, loaded, hsave, hld, hp⟩ := roundtrip_strong rechunk hdr rid L hL hLlaw
+    (fun hre c hc => by rw [(hLall c hc).2.2 hre]; exact hrt hre) hLrid hplain hmd
+  obtain ⟨out, _, _, hmc⟩ := metaConsistent_of_save _ _ _ _ _ _ hsave
+  refine ⟨(md, files), loaded, direct, out, ?_, hld, hdirect, ?_, ?_, ?_, ?_, hp.law, hp.runs, hmc⟩
+  · simp only [perChunkPipeline, perChunkMerge, hjobs, hloads, bind, Except.bind]
+    exact hsave
+  · rw [hp.rows_eq, hLrows]
+  · rw [hp.rows_eq, hLrows]
+    exact hhom _ _ hl hdirect
+  · rw [hp.start_eq, hLhead]
+  · rw [hp.stop_eq, hLlast]
+
+/-- the grouping does not matter: two groupings of the same dependency give the same rows -/
+theorem per_chunk_merge_grouping_independent {f : Chunk → Except Err Chunk} {dt : String} {tt : Nat}
+    {whole : List Row → List Row} (hf : ChunkWise f dt tt) (hhom : ChunkHomRows f whole)
+    (g1 g2 : List (List Chunk)) (h1 h2 : List Header) (hdr : Header) (rid : String)
+    (ros re : Bool) (rt : Nat) (hsame : g1.flatten = g2.flatten)
+    (hl1 : h1.length = g1.length) (hl2 : h2.length = g2.length) (hg1 : g1 ≠ []) (hg2 : g2 ≠ [])
+    (hn1 : ∀ g ∈ g1, g ≠ []) (hn2 : ∀ g ∈ g2, g ≠ [])
+    (hl : Strax.LawAbiding g1.flatten = true) (hrun : ∀ c ∈ g1.flatten, c.runId = some rid)
+    (hplain : rid.startsWith "_" = false)
+    (hj1 : ∀ h ∈ h1, h.runId.startsWith "_" = false ∧ h.dataType = dt)
+    (hj2 : ∀ h ∈ h2, h.runId.startsWith "_" = false ∧ h.dataType = dt)
+    (hmd : hdr.runId.startsWith "_" = false) (htt : ros = true → 1 ≤ tt) (hrt : re = true → 1 ≤ rt) :
+    ∃ d1 d2 l1 l2, perChunkPipeline Generated.getSplitsArgmin0 f h1 ros g1 re rt hdr = .ok d1 ∧
+      perChunkPipeline Generated.getSplitsArgmin0 f h2 ros g2 re rt hdr = .ok d2 ∧
+      loadDir d1 = .ok l1 ∧ loadDir d2 = .ok l2 ∧ rows l1 = rows l2 := by
+  obtain ⟨d1, l1, _, _, a1, a2, _, _, a5, _⟩ :=
+    per_chunk_merge hf hhom g1 h1 hdr rid ros re rt hl1 hg1 hn1 hl hrun hplain hj1 hmd htt hrt
+  obtain ⟨d2, l2, _, _, b1, b2, _, _, b5, _⟩ :=
+    per_chunk_merge hf hhom g2 h2 hdr rid ros re rt hl2 hg2 hn2 (hsame ▸ hl) (hsame ▸ hrun) hplain hj2 hmd htt hrt
+  exact ⟨d1, d2, l1, l2, a1, b1, a2, b2, by rw [a5, b5, hsame]⟩
+
+/-- non-vacuity: a row-wise filter (the harness plugin `Tgt`) is such a computation -/
+theorem filterChunk_chunkWise (dt : String) (tt : Nat) (p : Row → Bool) :
+    ChunkWise (fun c => pure (filterChunk dt tt p c)) dt tt ∧
+    ChunkHomRows (fun c => pure (filterChunk dt tt p c)) (fun rs => rs.filter p) := by
+  refine ⟨⟨fun c _ => ⟨_, rfl⟩, ?_⟩, ?_⟩
+  · intro c c' hg hc
+    simp only [pure, Except.pure, Except.ok.injEq] at hc
+    subst hc
+    refine ⟨?_, rfl, rfl, rfl, rfl, rfl⟩
+    simp only [Chunk.good, Bool.and_eq_true] at hg ⊢
+    obtain ⟨hwf, hs⟩ := hg
+    refine ⟨?_, ?_⟩
+    · rw [Chunk.wf_iff] at hwf ⊢
+      obtain ⟨h0, h1, h2, h3, h4⟩ := hwf
+      refine ⟨h0, h1, ?_, ?_, ?_⟩
+      · rw [sortedByTime_iff_pairwise] at h2 ⊢
+        exact h2.sublist List.filter_sublist
+      · intro r hr; exact h3 r (List.mem_filter.1 hr).1
+      · intro r hr; exact h4 r (List.mem_filter.1 hr).1
+    · rw [Chunk.simple_iff] at hs ⊢
+      simpa [filterChunk] using hs
+  · intro s out _ h
+    have hmap : ∀ (s : List Chunk), mapChunks (fun c => (pure (filterChunk dt tt p c) : Except Err Chunk)) s =
+        .ok (s.map (filterChunk dt tt p)) := by
+      intro s
+      induction s with
+      | nil => rfl
+      | cons c cs ih =>
+        simp only [pure, Except.pure] at ih
+        simp only [mapChunks, bind, Except.bind, pure, Except.pure, ih, List.map_cons]
+    have hrows : ∀ (s : List Chunk), rows (s.map (filterChunk dt tt p)) = (rows s).filter p := by
+      intro s
+      induction s with
+      | nil => rfl
+      | cons c cs ih =>
+        simp only [rows, List.map_cons, List.flatMap_cons, List.filter_append] at ih ⊢
+        rw [ih]
+        rfl
+    rw [hmap s] at h
+    cases h
+    exact hrows s
+
+/-! ## 6. per-chunk keys -/
+
+/-- With `chunk_number = {d: g}` for a data type `d` that some plugin in the lineage depends on
+directly: the key (under ANY injective lineage hash) differs from the plain key of the target, and
+two different chunk lists give different keys.  `lin` is the lineage of the target as the context
+builds it: no `chunk_number` assigned yet, `depends_on` without repetitions. -/
+theorem per_chunk_keys_distinct {H : Type} (hash : Lineage → H) (hinj : Function.Injective hash)
+    (lin : Lineage) (d : String) (g1 g2 : List Nat)
+    (hun : ∀ e ∈ lin, e.deps.Nodup ∧ e.chunkNumber = []) (hdep : ∃ e ∈ lin, d ∈ e.deps)
+    (hc1 : consecutive g1 = true) (hc2 : consecutive g2 = true) :
+    ∃ k0 k1 k2, keyFor hash lin none = .ok k0 ∧ keyFor hash lin (some [(d, g1)]) = .ok k1 ∧
+      keyFor hash lin (some [(d, g2)]) = .ok k2 ∧ k1 ≠ k0 ∧ k2 ≠ k0 ∧ (g1 ≠ g2 → k1 ≠ k2) := by
+  refine ⟨hash lin, hash (tagged d g1 lin), hash (tagged d g2 lin), rfl, ?_, ?_, ?_, ?_, ?_⟩
+  · simp [keyFor, tagLineage_single d g1 hc1 lin hun, Except.map]
+  · simp [keyFor, tagLineage_single d g2 hc2 lin hun, Except.map]
+  · exact fun h => tagged_ne d g1 lin hdep (fun e he => (hun e he).2) (hinj h)
+  · exact fun h => tagged_ne d g2 lin hdep (fun e he => (hun e he).2) (hinj h)
+  · exact fun hne h => hne (tagged_inj d g1 g2 lin hdep (hinj h))
+
+/-- the keys of the jobs of one grouping are pairwise distinct: distinct groups are distinct lists -/
+theorem per_chunk_job_keys_pairwise_distinct {H : Type} (hash : Lineage → H) (hinj : Function.Injective hash)
+    (lin : Lineage) (d : String) (groups : List (List Nat))
+    (hun : ∀ e ∈ lin, e.deps.Nodup ∧ e.chunkNumber = []) (hdep : ∃ e ∈ lin, d ∈ e.deps)
+    (hc : ∀ g ∈ groups, consecutive g = true) (hnd : groups.Nodup) :
+    (groups.map fun g => keyFor hash lin (some [(d, g)])).Nodup := by
+  rw [List.Nodup, List.pairwise_map]
+  refine List.Pairwise.imp_of_mem ?_ hnd
+  intro g1 g2 h1 h2 hne heq
+  obtain ⟨_, k1, k2, _, e1, e2, _, _, hk⟩ := per_chunk_keys_distinct hash hinj lin d g1 g2 hun hdep (hc g1 h1) (hc g2 h2)
+  rw [e1, e2] at heq
+  exact hk hne (Except.ok.inj heq)
+
+/-- conversely (strax's own `test_per_chunk_storage`): when no plugin in the lineage depends on
+`d`, the key does not change -/
+theorem per_chunk_key_unchanged_without_dependent {H : Type} (hash : Lineage → H) (lin : Lineage) (d : String)
+    (g : List Nat) (hun : ∀ e ∈ lin, e.deps.Nodup ∧ e.chunkNumber = []) (hno : ∀ e ∈ lin, d ∉ e.deps)
+    (hc : consecutive g = true) : keyFor hash lin (some [(d, g)]) = keyFor hash lin none := by
+  simp [keyFor, tagLineage_single d g hc lin hun, Except.map, tagged_of_no_dependent d g lin hno, pure, Except.pure]
+
+/-- a list that is not made of consecutive integers is refused -/
+theorem per_chunk_key_rejects_gaps {H : Type} (hash : Lineage → H) :
+    keyFor hash [⟨"tgt", ["src"], [], []⟩, ⟨"src", [], [], []⟩] (some [("src", [0, 2])]) = .error Err.valueError := by
+  rfl
+
+/-- non-vacuity of the hypotheses: the lineage of `tgt ← src`, groups `[0,1]` and `[2]` -/
+example : (∀ e ∈ ([⟨"tgt", ["src"], [], []⟩, ⟨"src", [], [], []⟩] : Lineage), e.deps.Nodup ∧ e.chunkNumber = []) ∧
+    (∃ e ∈ ([⟨"tgt", ["src"], [], []⟩, ⟨"src", [], [], []⟩] : Lineage), "src" ∈ e.deps) ∧
+    consecutive [0, 1] = true ∧ consecutive [2] = true ∧ Function.Injective (id : Lineage → Lineage) :=
+  ⟨by decide, by decide, by decide, by decide, fun _ _ h => h⟩
+
+/-- which key the merged data gets: the plain key as soon as the smallest number is 0 and the
+largest is `#chunks - 1`.  For the grouping `[[0,1],[2]]` of three chunks that is right … -/
+example : mergeChunkNumber 3 [[0, 1], [2]] = .ok none := by decide
+
+/-- … but completeness and order are not looked at (observation, outside the property's quantifier
+"groupings of the dependency chunks"): `[[0],[2]]` of three chunks is stored under the plain key
+although chunk 1 is missing, and so is `[[1],[0]]` of two chunks, out of order. -/
+theorem merge_key_ignores_completeness_and_order :
+    mergeChunkNumber 3 [[0], [2]] = .ok none ∧ mergeChunkNumber 2 [[1], [0]] = .ok none ∧
+    mergeChunkNumber 3 [[0], [1]] = .ok (some [0, 1]) ∧ mergeChunkNumber 3 [[0], [0]] = .error Err.valueError := by
+  decide
 
 end Strax.C16
